@@ -79,6 +79,9 @@ func propC08(c *Ctx, r *Report) {
 	r.Clauses = append(r.Clauses, "syntax-tree walkers (E3): every function reachable from the parser / lowerer entry points that walks the parser's tree (a type switch over Expr, Stmt, Type or Decl nodes using every child in >= 3/4 of its arms) uses every child node of every variant it has an arm for and, when it has no default arm, has an arm for every variant that has children (a declaration referenced only through an unvisited child is ordered after its user and the valid program is rejected)")
 	c.runFrontendASTWalkers(r, "frontend")
 	r.floor("frontend.astwalkers", 8)
+	r.Clauses = append(r.Clauses, "trailing commas (E9): every parser loop over a comma-separated list tests the closing token again after each comma, so the valid trailing-comma form of a list is accepted")
+	c.runListLoops(r, "parse.listloop")
+	r.floor("parser.listloops", 5)
 	r.Clauses = append(r.Clauses, "define after initializer (E7, go/cfg): in the parser's dependency walk and the lowerer, no call that consumes the initializer or type of a declaration node (d.Init / d.Type as an argument) is reachable in the control-flow graph from a store that defines the declaration's name (a store into a string-keyed map with key d.Name) - the initializer of let/var/const/override is resolved outside the scope of the name it declares (let x = x + 1 reads the outer x; a self-referential initializer can otherwise recurse without end)")
 	c.runDefAfterInit(r, "scope.defafterinit", inPkgs("wgsl/internal/lower", parserRel))
 	r.floor("scope.definitions", 12)
